@@ -11,6 +11,7 @@ from __future__ import annotations
 
 import hashlib
 import math
+from fractions import Fraction
 
 import z3
 
@@ -25,7 +26,7 @@ def _h(*parts):
 
 def _hreal(*parts):
     v = _h(*parts)
-    return ((v % 2001) - 1000) / 250.0 or 0.37  # in [-4, 4], never exactly 0
+    return Fraction((v % 2001) - 1000, 250) or Fraction(37, 100)  # exact rational in [-4, 4], never 0
 
 
 class Eval:
@@ -41,9 +42,9 @@ class Eval:
 
     def obs(self, v):
         if callable(v):
-            return tuple(round(v(i), 9) for i in SAMPLES)
-        if isinstance(v, float):
-            return round(v, 9)
+            return tuple(self.obs(v(i)) for i in SAMPLES)
+        if isinstance(v, (float, Fraction)):
+            return round(float(v), 9)
         return v
 
     def ev(self, t, bound=()):
@@ -66,7 +67,7 @@ class Eval:
         if z3.is_int_value(t):
             return t.as_long()
         if z3.is_rational_value(t):
-            return float(t.as_fraction())
+            return t.as_fraction()  # exact
         if z3.is_algebraic_value(t):
             return float(t.approx(20).as_fraction())
         if z3.is_true(t):
@@ -91,7 +92,13 @@ class Eval:
                 return _hreal(self.seed, "r", name)
             args = [E(c) for c in ch]
             if name == "sqrt":
-                return math.sqrt(args[0]) if args[0] >= 0 else _hreal(self.seed, "sqrtneg", round(args[0], 9))
+                if args[0] < 0:
+                    return _hreal(self.seed, "sqrtneg", round(float(args[0]), 9))
+                if isinstance(args[0], Fraction):
+                    n, d = math.isqrt(args[0].numerator), math.isqrt(args[0].denominator)
+                    if n * n == args[0].numerator and d * d == args[0].denominator:
+                        return Fraction(n, d)  # exact when the argument is a rational square
+                return math.sqrt(args[0])
             keyargs = tuple(self.obs(a) for a in args)
             rs = t.sort()
             # one value per (function, argument tuple); argument tuples are matched with a tolerance so that two
@@ -128,6 +135,8 @@ class Eval:
             return v
         if k == z3.Z3_OP_DIV:
             a, b = E(ch[0]), E(ch[1])
+            if isinstance(a, int):
+                a = Fraction(a)
             return a / b if b != 0 else _hreal(self.seed, "div0", round(float(a), 9))
         if k == z3.Z3_OP_IDIV:
             a, b = E(ch[0]), E(ch[1])
@@ -141,7 +150,7 @@ class Eval:
             a, b = E(ch[0]), E(ch[1])
             return a % abs(b) if b != 0 else _h(self.seed, "mod0", a) % 7
         if k == z3.Z3_OP_TO_REAL:
-            return float(E(ch[0]))
+            return Fraction(E(ch[0]))
         if k == z3.Z3_OP_TO_INT:
             return math.floor(E(ch[0]))
         if k == z3.Z3_OP_POWER:
@@ -192,7 +201,8 @@ class Eval:
             return isinstance(a, tuple) and isinstance(b, tuple) and len(a) == len(b) and all(self.close(x, y) for x, y in zip(a, b))
         if isinstance(a, bool) or isinstance(b, bool):
             return a == b
-        if isinstance(a, (int, float)) and isinstance(b, (int, float)):
+        if isinstance(a, (int, float, Fraction)) and isinstance(b, (int, float, Fraction)):
+            a, b = float(a), float(b)
             return abs(a - b) <= 1e-7 * max(1.0, abs(a), abs(b))
         return a == b
 
@@ -215,8 +225,9 @@ class Eval:
             return all(self.eq(a(i), b(i)) for i in SAMPLES)
         if isinstance(a, bool) or isinstance(b, bool):
             return bool(a) == bool(b)
-        if isinstance(a, int) and isinstance(b, int):
-            return a == b
+        if isinstance(a, (int, Fraction)) and isinstance(b, (int, Fraction)):
+            return a == b  # exact rational arithmetic: no tolerance
+        a, b = float(a), float(b)
         return abs(a - b) <= 1e-9 * max(1.0, abs(a), abs(b))
 
 
